@@ -1,6 +1,9 @@
-# per-property configuration for bin/check
+# bin/props.py : loads the per-property configuration files bin/props.d/Cxx.py
+# Each file defines  PROP = dict(...)  (for bin/check)  and  MANIFEST = dict(level=, note=, technique=)  (for bin/mkmanifest).
+import os, glob, importlib.machinery, importlib.util
+
 ALLOWED_AXIOMS = {
-    # only axioms the standard library itself declares; none is used at present
+    # only axioms the standard library itself declares; listed in DESIGN.md section 8
     "functional_extensionality_dep", "FunctionalExtensionality.functional_extensionality_dep",
     "proof_irrelevance", "ProofIrrelevance.proof_irrelevance", "classic", "Classical_Prop.classic",
     "JMeq_eq", "JMeq.JMeq_eq", "Eqdep.Eq_rect_eq.eq_rect_eq", "eq_rect_eq",
@@ -8,25 +11,21 @@ ALLOWED_AXIOMS = {
 COMMON_TB = [
     "hand-written Gallina model tied to the code by the correspondence run (Go harness, build tag verif, vs Coq-extracted OCaml driver on the same inputs)",
     "Coq extraction (ExtrOcamlBasic directives only: bool, option, list, prod, unit, sumbool), ocamlopt, ocaml/util.ml + driver (Obj.magic between structurally identical extracted types)",
-    "Go harness, bin/check, constgen (prints compiled Go constants into coq/Gen/Constants.v)",
+    "Go harness, bin/check, constgen (prints compiled Go constants into coq/Gen/K_*.v)",
 ]
-PROPS = {
- "C15": dict(
-    coq_targets=["Properties/C15.v"], property_file="Properties/C15.v",
-    extract_file="Extract/ExC15.v", extract_module="c15_model", driver_files=["drv_c15.ml"],
-    trusted_base=COMMON_TB,
-    rule="seeded generator: lists of 0..64 items with lengths on the varint boundary grid (0,1,127,128,16383,16384,2^21-1..), their encodings, truncations at random cut points, mutated encodings (bit flip, extension, truncation, forced continuation bit, over-long varint), varint-heavy and plain random byte strings, fixed boundary corpus; one case = one line (kind, input, implementation observable); non-trivial = input is not the empty string/list; distinct by sha1 of the line",
-    nontrivial=lambda l: not (l.split(" | ")[0].split(" ")[-1] in ("-", ".")),
-    modelled=["tetratelabs/wabin leb128 EncodeUint32/DecodeUint32 re-implemented in Gallina (validated by the same correspondence run)"],
-    assumptions=["items shorter than 2^32 bytes (uint32(len) wraps otherwise; stated as hypothesis `short`)",
-                 "error class is not compared, only ok/err/panic and the returned values"],
- ),
-}
-
+PROPS = {}
+MANIFEST_TEXT = {}
 NOT_CLAIMED = {}
-MANIFEST_TEXT = {
- "C15": dict(
-    level="Machine-checked proof (Coq 8.16, no axioms) over a Gallina model of the four framing helpers and the LEB128 codec: inverse law for every list of items < 2^32 bytes, image characterisation (an accepted stream is exactly header_i++item_i), truncation, over-long / overflowing varints, exact cover for single-item streams, totality. The model is tied to the code on every run by differential execution (real helpers via build-tag hooks vs the extracted model) on boundary-directed inputs; monitors derived from the iff-theorems turn any divergence of the accepting set into a concrete failing input.",
-    note="Trusted: Coq kernel, extraction + OCaml driver, Go harness; model/code agreement outside the generated inputs is tested, not proved. leb128 library re-implemented in the model. Items >= 2^32 bytes excluded by hypothesis (uint32 wrap).",
-    technique="Coq proof (induction, inverse law + image characterisation) + model/implementation correspondence run"),
-}
+_d = os.path.join(os.path.dirname(os.path.abspath(__file__)), "props.d")
+for _f in sorted(glob.glob(os.path.join(_d, "C*.py"))):
+    _name = os.path.basename(_f)[:-3]
+    _l = importlib.machinery.SourceFileLoader("props_" + _name, _f)
+    _spec = importlib.util.spec_from_loader(_l.name, _l)
+    _m = importlib.util.module_from_spec(_spec)
+    _m.COMMON_TB = COMMON_TB
+    _l.exec_module(_m)
+    if hasattr(_m, "PROP"):
+        PROPS[_name] = _m.PROP
+        MANIFEST_TEXT[_name] = _m.MANIFEST
+    if hasattr(_m, "NOT_CLAIMED_REASON"):
+        NOT_CLAIMED[_name] = _m.NOT_CLAIMED_REASON
